@@ -1,2 +1,31 @@
-(* C18 (theorems added as proved). *)
-From VF Require Import Base.Prelude Model.Sflow.
+(* C18 — The sFlow type filter removes exactly the listed sample types.
+   Stated on the sample loop of SFDecode instantiated with the field sequences REGENERATED from the Go
+   source; holds for every layout instantiation (the proof is parametric in them). *)
+From VF Require Import Base.Prelude Base.Json Model.Layout Model.Sflow Proofs.SflowFilter.
+From VF Require Gen.Layouts.
+Module G := VF.Gen.Layouts.
+
+Notation g_loop := (samples_loop G.sf_flow_sample_layout G.sf_counter_sample_layout G.sf_ext_switch_layout G.sf_generic_layout
+  G.sf_ethernet_layout G.sf_tokenring_layout G.sf_vg_layout G.sf_vlan_layout G.sf_processor_layout
+  G.sf_flow_sample_fields G.sf_counter_sample_fields G.sf_ext_switch_fields G.sf_generic_fields G.sf_ethernet_fields
+  G.sf_tokenring_fields G.sf_vg_fields G.sf_vlan_fields G.sf_processor_fields).
+Notation g_wd := (well_delimited G.sf_flow_sample_layout G.sf_counter_sample_layout G.sf_ext_switch_layout G.sf_generic_layout
+  G.sf_ethernet_layout G.sf_tokenring_layout G.sf_vg_layout G.sf_vlan_layout G.sf_processor_layout
+  G.sf_flow_sample_fields G.sf_counter_sample_fields G.sf_ext_switch_fields G.sf_generic_fields G.sf_ethernet_fields
+  G.sf_tokenring_fields G.sf_vg_fields G.sf_vlan_fields G.sf_processor_fields).
+
+(* for every filter list, every number of samples and every datagram position whose samples are well
+   delimited: with the filter, the flow samples are exactly those decoded without it — or none, if type
+   1 is listed — and likewise the counter samples for type 2; listing any other type changes nothing *)
+Theorem C18_filter_exact : forall (f : list Z) fuel n r S C,
+  g_loop fuel [] n r [] [] = Ok (SFOk S C) -> g_wd fuel n r ->
+  g_loop fuel f n r [] [] = Ok (SFOk (if listed 1 f then [] else S) (if listed 2 f then [] else C)).
+Proof. intros f. apply filter_exact. Qed.
+Print Assumptions C18_filter_exact.
+
+Corollary C18_unlisted_types_untouched : forall (f : list Z) fuel n r S C,
+  listed 1 f = false -> listed 2 f = false ->
+  g_loop fuel [] n r [] [] = Ok (SFOk S C) -> g_wd fuel n r ->
+  g_loop fuel f n r [] [] = Ok (SFOk S C).
+Proof. intros f fuel n r S C L1 L2 H Hw. rewrite (C18_filter_exact f fuel n r S C H Hw), L1, L2. reflexivity. Qed.
+Print Assumptions C18_unlisted_types_untouched.
